@@ -167,9 +167,10 @@ def _run_impl(case):
             elif name == "len":
                 outs.append(len(t))
             elif name == "items":
-                outs.append([[list(p), v] for p, v in t.items()])
+                # materialise first: a caller may keep the yielded keys (list(trie.items()))
+                outs.append([[list(p), v] for p, v in list(t.items())])
             elif name == "prefixes":
-                outs.append([list(p) for p in t.prefixes()])
+                outs.append([list(p) for p in list(t.prefixes())])
             elif name == "values":
                 outs.append(list(t.values()))
             elif name == "lmpv":
@@ -223,15 +224,15 @@ def oracle(case):
     def check(stepno):
         if len(t) != len(spec):
             return "after %d sets: len=%d, dict has %d keys" % (stepno, len(t), len(spec))
-        its = _sorted([[list(p), v] for p, v in t.items()])
+        its = _sorted([[list(p), v] for p, v in list(t.items())])
         want = _sorted([[list(k), v] for k, v in spec.items()])
         if its != want:
             return "after %d sets: items=%s expected %s" % (stepno, its, want)
-        if _sorted([list(p) for p in t.prefixes()]) != _sorted([list(k) for k in spec]):
+        if _sorted([list(p) for p in list(t.prefixes())]) != _sorted([list(k) for k in spec]):
             return "after %d sets: prefixes differ" % stepno
         if _sorted(list(t.values())) != _sorted(list(spec.values())):
             return "after %d sets: values differ" % stepno
-        if _sorted([[list(p), v] for p, v in iter(t)]) != want:
+        if _sorted([[list(p), v] for p, v in list(iter(t))]) != want:
             return "after %d sets: iter differs" % stepno
         for k in qk:
             kk = _key(case, k)
@@ -241,6 +242,9 @@ def oracle(case):
                 return "after %d sets: get(%r)=%r, dict: %r" % (stepno, k, r, spec.get(tk, "<absent>"))
             if t.get(kk) != spec.get(tk):
                 return "after %d sets: get(%r) default" % (stepno, k)
+            for dflt in (0, "d"):
+                if t.get(kk, dflt) != spec.get(tk, dflt):
+                    return "after %d sets: get(%r, %r)=%r, dict: %r" % (stepno, k, dflt, t.get(kk, dflt), spec.get(tk, dflt))
             try:
                 r = t[kk]
                 if tk not in spec or r != spec[tk]:
